@@ -9,12 +9,15 @@ import numpy as np
 
 PROPS_MODULE = "NessaiVerif.Props.C03"
 MANIFEST = dict(
-    text="Lean theorems over a linear-domain model of the importance sampler's meta-proposal bookkeeping (proposal counts and "
+    text="PARTIAL (the clause 'stored log-densities equal the saved proposals re-evaluated at the sample' enters the theorems as a "
+         "hypothesis on each iteration's inputs and is checked on real runs by the replay/oracle; unit-hypercube membership and "
+         "stored logL = model value are oracle-only; finalisation and resume are covered by replayed runs, not by theorems): "
+         "Lean theorems over a linear-domain model of the importance sampler's meta-proposal bookkeeping (proposal counts and "
          "weights, per-sample density rows, Q = Σ w_k q_k, W = U/Q), generic over any field of characteristic zero: weights are "
          "the fractions of samples drawn from each proposal and sum to one; after every iteration (any number of them, any batch "
          "sizes, with/without the independent set) every stored sample's row holds every proposal's density at that sample, its "
          "Q is the mixture under the CURRENT weights and W·Q = U; the counts are the numbers of stored samples labelled with each "
-         "proposal (samples_grouped_by_proposal); plus the counter-example that skipping the re-weighting of old "
+         "proposal (samples_grouped_by_proposal); Q > 0 for every stored sample when densities are non-negative (reachable_Q_pos); plus the counter-example that skipping the re-weighting of old "
          "samples breaks it. The model is tied to the code by replaying complete runs of the real ImportanceNestedSampler "
          "(real OrderedSamples / ImportanceFlowProposal / ImportanceFlowModel code paths, with exactly-known 'tilt' flows "
          "substituted for the neural flows and their training) through the Rat model after every iteration, finalisation and "
